@@ -394,7 +394,7 @@ def uop_tokens(op):
         return ["savexmm", str(op[1])]
     return ["mach", "1" if op[1] else "0"]
 
-def build_pe(funcs, uinfos, text_lo, text_bytes, xdata_rva=0x80000, rdata_ids=()):
+def build_pe(funcs, uinfos, text_lo, text_bytes, xdata_rva=0x80000, rdata_ids=(), text_hi=None):
     """funcs = [(begin, end, uinfo_id)] sorted by begin; uinfos = {id: uinfo dict}; chain refers to ids.
     Unwind infos whose id is in rdata_ids are placed in .rdata, which ends exactly where .xdata begins.
     Returns (sections list for the B view, abstract tokens for the A view)."""
@@ -426,8 +426,11 @@ def build_pe(funcs, uinfos, text_lo, text_bytes, xdata_rva=0x80000, rdata_ids=()
         secs.append((".rdata", rdata, (rdata_rva, rdata_rva + len(rdata))))
     if xd or not rd:
         secs.append((".xdata", xdata, (xdata_rva, xdata_rva + len(xdata))))
+    if text_hi is None and text_bytes is not None:
+        text_hi = text_lo + len(text_bytes)
     if text_bytes is not None:
-        secs.append((".text", bytes(text_bytes), (text_lo, text_lo + len(text_bytes))))
+        # text_hi may disagree with the length of the data (inconsistent section range)
+        secs.append((".text", bytes(text_bytes), (text_lo, text_hi)))
     a = ["pe", str(len(funcs))]
     for (b, e, u) in funcs:
         a += [hx(b), hx(e), hx(rva[u])]
@@ -439,13 +442,13 @@ def build_pe(funcs, uinfos, text_lo, text_bytes, xdata_rva=0x80000, rdata_ids=()
             a.append(str(off & 0xff)); a += uop_tokens(op)
         a.append(hx(rva[u["chain"]]) if u.get("chain") is not None else "-")
     if text_bytes is not None:
-        a += ["text", hx(text_lo), hx(text_lo + len(text_bytes)), hexs(bytes(text_bytes))]
+        a += ["text", hx(text_lo), hx(text_hi), hexs(bytes(text_bytes))]
     else:
         a += ["notext"]
     return secs, a, rva
 
-def module_pe(script, mid, start, end, base_avma, base_svma, funcs, uinfos, text_lo, text_bytes, xdata_rva=0x80000, rdata_ids=()):
-    secs, a, rva = build_pe(funcs, uinfos, text_lo, text_bytes, xdata_rva, rdata_ids)
+def module_pe(script, mid, start, end, base_avma, base_svma, funcs, uinfos, text_lo, text_bytes, xdata_rva=0x80000, rdata_ids=(), text_hi=None):
+    secs, a, rva = build_pe(funcs, uinfos, text_lo, text_bytes, xdata_rva, rdata_ids, text_hi)
     b = [str(len(secs))]
     for name, data, rngs in secs:
         b += [name, hexs(data)] + ([hx(base_svma + rngs[0]), hx(base_svma + rngs[1])] if rngs else ["-", "-"])
